@@ -7,6 +7,18 @@ COMMON_NOTE = ('Trusted: Coq 8.16.1 kernel (no native_compute; vm_compute only i
                'extraction with ExtrOcamlBasic only (no Extract Constant; nat stays Peano), OCaml 4.13.1 and ocaml/*.ml; the Rust harness and lib/*.py. '
                'Axioms (Print Assumptions on every property theorem): none - closed under the global context. ')
 CLAIMS = {
+ 'C03': {
+  'text': 'Machine-checked theorems: (i) the harness scanners map every canonical start position to a canonical end position strictly further on (a token is a whole number of units: by the greedy-reading lemma units_app, for all texts/line endings/tab widths); (ii) a new lexer holds only canonical positions and next, peek, set_filter/with_filter, start_sublex preserve that for every outcome, hence in any order and number (parse start, token start, cursor and both look-ahead positions - everything token_span/parse_span/peek_token_span/cursor_pos are built from); canonical = the declarative triple of C19. The builder-order part (metrics builders re-measure positions) and every span inside values and errors of grammar runs are decided by the correspondence run and a python oracle that recomputes the canonical position of every reported byte offset under the FINAL metrics.',
+  'ref': 'DESIGN.md 4 C03', 'note': 'Modelled, not verified: lexer.rs, metrics.rs, the three harness scanners. Scanner hypothesis (tokens never end inside a CRLF, ends measured with end_position) is PROVED for the harness scanners; for user scanners it is an assumption. Remeasuring after a metrics builder is covered by correspondence, not by a theorem.',
+  'technique': 'Rocq proof (scanner canonicity via unit alignment; position invariant over all lexer operations) + correspondence'},
+ 'C04': {
+  'text': 'Machine-checked refinement of the concrete lexer (scanner state, one-token look-ahead buffer, eager skipping, parse/token/cursor positions) to the sequential scan of the text: representation invariant Inv preserved by every operation; draining a lexer yields exactly the entries of the sequential scan that the filter keeps - same tokens, same spans, same scanner states - in order (c_drain_spec, for every text, filter and scanner state); the sequential scan tiles the text up to the first rejected position (stream_tiles); after each delivery the parse span runs from the start of the first delivered token to the end of the last (c_drain3_fresh). Correspondence: next-to-exhaustion and iter_with_spans on exhaustive small and random texts, 9 filters, plain/counting/modal scanners, against the real Lexer; python reference tokenisation as oracle.',
+  'ref': 'DESIGN.md 4 C04', 'note': 'Modelled, not verified: lexer.rs (new, with_filter, set_filter, buffer_next, next, peek, iter_with_spans, span queries) and the harness scanners. Fuel = characters + 1 is proved sufficient (stream_fuel).',
+  'technique': 'Rocq proof (refinement of the buffered lexer to the sequential scan, induction over the scan) + correspondence'},
+ 'C05': {
+  'text': 'Machine-checked, on the same refinement: peek (hence the declining cases of next_if/next_if_eq and all span queries) and start_sublex/into_sublexer leave what the lexer will deliver (the kept entries of the remaining sequential scan) unchanged; next delivers exactly its head with the span the scanner matched and the sequential scanner state; set_filter re-filters what is still to come; delivered entries are entries of the ONE sequential scan. Clone independence holds by construction in the value model and is exercised against the real derived Clone by the correspondence run (clones that run ahead, change filters, are drained). Recorded finding (model-level witness C05_eager_skip_refuted): a filter change after an eager skip cannot re-deliver the skipped tokens.',
+  'ref': 'DESIGN.md 4 C05', 'note': 'Modelled, not verified: lexer.rs. Partial: next_if, next_if_eq, advance_to, advance_up_to are compositions of peek/next in the model (transcribed) and are covered by correspondence with random and exhaustive length-3 histories, not by separate theorems. Known finding C05-filter-change-after-eager-skip listed in KNOWN_FINDINGS.json.',
+  'technique': 'Rocq proof (simulation of lexer operations on the abstract stream) + correspondence with an advance-only reference'},
  'C15': {
   'text': 'Machine-checked theorems over ALL finite operation trees (induction over the tree): the events of a tree are exactly those of its send/apply leaves, each produced in the context determined by the path to that leaf alone (siblings, clones and forks do not interfere); an error sent or applied at the end of a path carries exactly the transforms active on that path (pushes not made under a lock, none before a raw), innermost first, each once; pushes onto a locked context are ignored. Contexts are modelled as values; that the real Rc-shared cells behave like values is what the correspondence run checks: the extracted model and the real Context/raw/unrecoverable/send_error/apply_context are run on thousands of seeded random trees and an exhaustive wrapper family, with tagging transforms, and an independent python reading of the property re-checks the implementation\'s events.',
   'ref': 'DESIGN.md 4 C15', 'note': 'Modelled, not verified: context.rs, result.rs apply_context, control.rs raw/unrecoverable. Value model of contexts (no store): sound because after the repair no library code mutates a shared cell; take_*/replace_* by user code are outside the model.',
